@@ -150,3 +150,12 @@ func init() {
 		NotCovered:  "that the URI/pointer arithmetic designates the right node; pointer escape decoding (jsonpointer); equality of the three ways of supplying the root (the typed-versus-generic half is C15's rule)",
 	})
 }
+
+func init() {
+	registerProperty(&Property{
+		ID:    "C07",
+		Rules: []string{"codec-no-panic", "bounded-recursion"},
+		Explanation: "Decides the totality half structurally. codec-no-panic: in every function reachable from any UnmarshalJSON, MarshalJSON, GobEncode, GobDecode, fromMap or JSONLookup method (static callees plus sort.Interface methods) there is no panic-capable construct: no Must*/panic call, no single-result type assertion outside a type switch, every index on the input bytes is dominated by a length guard that implies it is in range, every other index/slice expression is bounded by its loop, and every store into a field map is dominated by the nil-check-and-make idiom or targets a freshly made map. bounded-recursion: no codec method lies on a static call cycle, and none hands its own whole input (or receiver) back to encoding/json at a type whose method set resolves to that very method; recursion therefore only goes through encoding/json on strictly nested values, bounded by its nesting limit.",
+		NotCovered:  "the fixed-point law decode.encode.decode.encode = decode.encode (value-level; e.g. \"items\": [] -> null is not detected); panics or hangs inside dependencies; stack depth of encoding/json itself",
+	})
+}
